@@ -17,8 +17,10 @@ import (
 	"github.com/formancehq/go-libs/v5/pkg/authn/jwt"
 	logging "github.com/formancehq/go-libs/v5/pkg/observe/log"
 
+	ledger "github.com/formancehq/ledger/internal"
 	"github.com/formancehq/ledger/internal/api"
 	"github.com/formancehq/ledger/internal/api/bulking"
+	ledgercontroller "github.com/formancehq/ledger/internal/controller/ledger"
 )
 
 // TIE-H: the history tie driven through the real HTTP API (api.NewRouter: chi routing, the v2 handlers, body and query
@@ -113,7 +115,11 @@ func httpRequestOf(ledgerName string, o Op) (method, path string, hdr map[string
 			ps = append(ps, fmt.Sprintf(`{"source":%s,"destination":%s,"asset":%s,"amount":%s}`, jsonStr(p.Src), jsonStr(p.Dst), jsonStr(p.Asset), p.Amt.String()))
 		}
 		fs := []string{`"postings":[` + strings.Join(ps, ",") + `]`}
-		if len(o.Meta) > 0 || len(o.Post)%2 == 0 {
+		if o.Script {
+			// a Numscript request: the script text expresses force itself; the metadata member is always present (a client
+			// sending a script with metadata beside it)
+			fs = []string{`"script":` + scriptJSON(o, o.Force), `"metadata":` + jsonMeta(o.Meta)}
+		} else if len(o.Meta) > 0 || len(o.Post)%2 == 0 {
 			fs = append(fs, `"metadata":`+jsonMeta(o.Meta))
 		}
 		if o.TS != nil {
@@ -134,7 +140,7 @@ func httpRequestOf(ledgerName string, o Op) (method, path string, hdr map[string
 			}
 			fs = append(fs, `"accountMetadata":{`+strings.Join(as, ",")+`}`)
 		}
-		if o.Force {
+		if o.Force && !o.Script {
 			if len(o.Post)%2 == 1 {
 				fs = append(fs, `"force":true`)
 			} else {
@@ -172,6 +178,26 @@ func httpRequestOf(ledgerName string, o Op) (method, path string, hdr map[string
 		path += "?" + q.Encode()
 	}
 	return
+}
+
+// scriptJSON: the "script" member of a create request whose Numscript also sets metadata: the text TxToScriptData
+// renders for the postings (its variables go into "vars") followed by the set_tx_meta / set_account_meta lines
+func scriptJSON(o Op, force bool) string {
+	td := ledger.TransactionData{}
+	for _, p := range o.Post {
+		td.Postings = append(td.Postings, ledger.NewPosting(p.Src, p.Dst, p.Asset, new(big.Int).Set(p.Amt)))
+	}
+	rs := ledgercontroller.TxToScriptData(td, force)
+	var names []string
+	for k := range rs.Script.Vars {
+		names = append(names, k)
+	}
+	sort.Strings(names)
+	var vs []string
+	for _, k := range names {
+		vs = append(vs, jsonStr(k)+":"+jsonStr(rs.Script.Vars[k]))
+	}
+	return `{"plain":` + jsonStr(o.scriptText(rs.Script.Plain)) + `,"vars":{` + strings.Join(vs, ",") + `}}`
 }
 
 func (h *httpAPI) runOp(ledgerName string, o Op) (res OpResult) {
@@ -607,7 +633,9 @@ func v1RequestOf(ledgerName string, o Op) (method, path string, hdr map[string]s
 			ps = append(ps, fmt.Sprintf(`{"source":%s,"destination":%s,"asset":%s,"amount":%s}`, jsonStr(p.Src), jsonStr(p.Dst), jsonStr(p.Asset), p.Amt.String()))
 		}
 		fs := []string{`"postings":[` + strings.Join(ps, ",") + `]`}
-		if len(o.Meta) > 0 || len(o.Post)%2 == 0 {
+		if o.Script { // the v1 script path of the same endpoint (no postings member)
+			fs = []string{`"script":` + scriptJSON(o, false), `"metadata":` + jsonMeta(o.Meta)}
+		} else if len(o.Meta) > 0 || len(o.Post)%2 == 0 {
 			fs = append(fs, `"metadata":`+jsonMeta(o.Meta))
 		}
 		if o.TS != nil {
